@@ -213,8 +213,6 @@ def sqlite_keywords(path, candidates):
         stmts = [
             ("CREATE TABLE %s (%s INTEGER, other INTEGER)" % (w, w), None),
             ("CREATE INDEX ix_plain ON %s (%s)" % (w, w), None),
-            ("CREATE TABLE t2 (id INTEGER)", None),
-            ("CREATE INDEX %s ON t2 (id)" % w, None),
             ("INSERT INTO %s (%s, other) VALUES (42, 7)" % (w, w), None),
             ("SELECT %s FROM %s" % (w, w), [(42,)]),
             ("SELECT %s.%s FROM %s" % (w, w, w), [(42,)]),
@@ -227,6 +225,10 @@ def sqlite_keywords(path, candidates):
             ("SELECT count(*) FROM %s GROUP BY %s HAVING %s = 43" % (w, w, w), [(1,)]),
             ("DELETE FROM %s WHERE %s = 43" % (w, w), None),
             ("SELECT count(*) FROM %s" % w, [(0,)]),
+            ("DROP TABLE %s" % w, None),
+            # tables and indexes share a namespace: the index named w comes after the table named w is gone
+            ("CREATE TABLE t2 (id INTEGER)", None),
+            ("CREATE INDEX %s ON t2 (id)" % w, None),
             ("DROP INDEX %s" % w, None),
         ]
         for sql, want in stmts:
